@@ -86,7 +86,7 @@ Record facts := {
   f_cst : option string;    (* Expr: constant string value *)
   f_sig : sigfact;          (* Expr: TypeOf is a signature *)
   f_istype : bool;          (* Expr: denotes a type (types.TypeAndValue.IsType), e.g. the Fun of a conversion *)
-  f_multi : N;              (* Call: number of results when it yields a tuple of >= 2 values, else 0 *)
+  f_multi : N;              (* Expr: number of values when it is a (possibly parenthesised) call yielding a tuple of >= 2, else 0 *)
   f_basic : option (N * N * N)  (* Expr: underlying basic type: (info flags, kind, size in bytes) *)
 }.
 
